@@ -1445,7 +1445,9 @@ ELFNAME_EXT_END = 0x30002000     # page-aligned end of the external buffer; fits
 def gen_bigelf(dist):
     """ELF-sections tags of n copies of one in-use section header, n around 2^8 and 2^16 (model: the closed form of C19_big)"""
     cases = []
-    for es, ent in ((40, E.elf32_entry(5, 1, 6, 0x1000, 0, 0x200, 0, 0, 8, 0)), (64, E.elf64_entry(7, 3, 2, 0x2000, 0, 0x300, 0, 0, 16, 0))):
+    # sh_link / sh_info hold values no index of the table: nothing but shndx designates the string table
+    for es, ent in ((40, E.elf32_entry(5, 1, 6, 0x1000, 0, 0x200, 0xFFFFFFFF, 0xFFFFFFF0, 8, 0)),
+                    (64, E.elf64_entry(7, 3, 2, 0x2000, 0, 0x300, 0xFFFFFFFF, 0x7FFFFFFF, 16, 0))):
         for n in (0, 1, 2, 255, 256, 257, 65535, 65536, 65537, 0x10003, 70000):
             for sh in sorted(set([0, max(n - 1, 0), n, 0xFFFF, 0x10000 if n > 0x10000 else 1])):
                 if 44 + n * es < 2 ** 23:
